@@ -63,9 +63,114 @@ class Recorder:
             self.entered[i] = self.entered.get(i, 0) + 1
 
 
+def nested_ids(D):
+    """Real ids of the nodes of a DAG realised through a nested DAG (D["nest"] = {"a", "b", "stubs": {stub: producer}}):
+    nodes a..b live in the nested DAG `inner`; a stub is the pass-through node of one of its parameters."""
+    nest = D["nest"]
+    out = []
+    for k in range(1, D["n"] + 1):
+        if str(k) in nest["stubs"]:
+            out.append(f"inner.inner>!>p{k}")
+        elif nest["a"] <= k <= nest["b"]:
+            out.append(f"inner.f{k}")
+        else:
+            out.append(f"f{k}")
+    return out
+
+
+def build_nested(D, res="main", mc=1):
+    """The DAG D, described as an outer DAG that calls a nested DAG for the nodes a..b.  Every node of D is a node of the
+    flattened graph: an inner node that uses a result of the outer DAG does so through a parameter of the nested DAG, whose
+    pass-through stub is the (regular, one-input) node D lists for it."""
+    from tawazi import dag, xn, Resource
+
+    resource = {"main": Resource.main_thread, "thread": Resource.thread, "async": Resource.async_thread}[res]
+    nest = D["nest"]
+    a, b, stubs = nest["a"], nest["b"], {int(k): v for k, v in nest["stubs"].items()}
+    xs = {}
+    for k in range(1, D["n"] + 1):
+        if k in stubs:
+            continue
+
+        def mk(k=k):
+            def f(*args):
+                return ("v", k)
+            f.__qualname__ = f.__name__ = f"f{k}"
+            return f
+        xs[k] = xn(mk(), debug=D["kind"][k - 1] == "debug", setup=D["kind"][k - 1] == "setup", resource=resource)
+    inner_lines = []
+    for k in range(a, b + 1):
+        if k in stubs:
+            inner_lines.append(f"    v{k} = p{k}")
+        else:
+            parts = [f"v{d}" for d in D["deps"][k - 1]] + (["7"] if D["const"][k - 1] else [])
+            inner_lines.append(f"    v{k} = X[{k}]({', '.join(parts)})")
+    params = [f"p{k}" for k in sorted(stubs)]
+    inner_ret = ", ".join(f"v{k}" for k in range(a, b + 1))
+    src = f"def inner({', '.join(params)}):\n" + "\n".join(inner_lines) + f"\n    return ({inner_ret},)\n"
+    env = {"X": xs}
+    exec(compile(src, "<e3 inner>", "exec"), env)  # noqa: S102
+    inner = dag(env["inner"], max_concurrency=mc)
+    lines = []
+    for k in range(1, a):
+        parts = [f"v{d}" for d in D["deps"][k - 1]] + (["7"] if D["const"][k - 1] else [])
+        lines.append(f"    v{k} = X[{k}]({', '.join(parts)})")
+    call_args = ", ".join(f"v{stubs[k]}" for k in sorted(stubs))
+    lines.append(f"    ({', '.join(f'v{k}' for k in range(a, b + 1))},) = INNER({call_args})")
+    for k in range(b + 1, D["n"] + 1):
+        parts = [f"v{d}" for d in D["deps"][k - 1]] + (["7"] if D["const"][k - 1] else [])
+        lines.append(f"    v{k} = X[{k}]({', '.join(parts)})")
+    ret = ", ".join(f"v{k}" for k in range(1, D["n"] + 1))
+    src = "def describe():\n" + "\n".join(lines) + f"\n    return ({ret},)\n"
+    env = {"X": xs, "INNER": inner}
+    exec(compile(src, "<e3 outer>", "exec"), env)  # noqa: S102
+    d = dag(env["describe"], max_concurrency=mc)
+    return d, nested_ids(D), xs
+
+
+def nested_dags(rng, count):
+    """DAG descriptions realised through a nested DAG: 1-2 outer nodes, 1-2 parameters (stubs) fed by them, 2-3 inner nodes
+    (regular and debug) that read stubs and one another, 0-1 outer node behind.  The flattened graph IS the description, so
+    Selection.tla applies as it stands; what differs from a flat DAG is only the ids (prefix, parameter names)."""
+    out = []
+    tries = 0
+    while len(out) < count and tries < count * 30:
+        tries += 1
+        nb = rng.randint(1, 2)
+        ns = rng.randint(1, 2)
+        ni = rng.randint(2, 3)
+        na = rng.randint(0, 1)
+        n = nb + ns + ni + na
+        deps, kind, stubs = [], [], {}
+        for k in range(1, nb + 1):
+            deps.append(sorted(rng.sample(range(1, k), rng.randint(0, k - 1))))
+            kind.append("reg")
+        for k in range(nb + 1, nb + ns + 1):
+            j = rng.randint(1, nb)
+            deps.append([j])
+            kind.append("reg")
+            stubs[str(k)] = j
+        a, b = nb + 1, nb + ns + ni
+        for k in range(nb + ns + 1, b + 1):
+            pool = list(range(nb + 1, k))
+            deps.append(sorted(rng.sample(pool, rng.randint(1, min(2, len(pool))))))
+            kind.append(rng.choice(["reg", "debug", "debug"]))
+        for k in range(b + 1, n + 1):
+            pool = list(range(1, nb + 1)) + list(range(nb + ns + 1, b + 1))
+            deps.append(sorted(rng.sample(pool, rng.randint(1, min(2, len(pool))))))
+            kind.append(rng.choice(["reg", "debug"]))
+        D = {"n": n, "deps": deps, "kind": kind, "const": [False] * n, "tags": {}, "nest": {"a": a, "b": b, "stubs": stubs}, "focus": "debugchain"}
+        if legal(D) and any(x == "debug" for x in kind):
+            out.append(D)
+    return out
+
+
 def build(D, res="main", mc=1):
     """Build the real DAG for D. Returns (dag, ids) or raises what the library raises."""
     from tawazi import dag, xn, Resource
+
+    if D.get("nest"):
+        return build_nested(D, res, mc)
 
     resource = {"main": Resource.main_thread, "thread": Resource.thread, "async": Resource.async_thread}[res]
     xs = {}
@@ -130,6 +235,9 @@ def express(D, d, xs, S, rng, forms):
             t = own[-1] if rng.random() < 0.6 else own[0]
             out.append(t)
             desc.append({"c": "str", "s": t, "n": 0})
+        elif D.get("nest"):
+            out.append(d.exec_nodes[nested_ids(D)[k - 1]])        # ids of nested nodes carry the prefix: name them by reference
+            desc.append({"c": "ref", "s": "", "n": k})
         elif form == "ref" or shadow:
             out.append(d.exec_nodes[f"f{k}"] if rng.random() < 0.5 else xs[k])
             desc.append({"c": "ref", "s": "", "n": k})
@@ -166,7 +274,7 @@ def observe(D, base, ids, xs, mode, pre, R, X, T, bogus, flag, rng, forms):
             if mode == 0:
                 ex = d.executor(target_nodes=t, exclude_nodes=x, root_nodes=r)
                 try:
-                    g = mask(int(i[1:]) for i in ex.graph.nodes if i in ids)
+                    g = mask(ids.index(i) + 1 for i in ex.graph.nodes if i in ids)
                 except Exception:  # noqa: BLE001
                     g = -1
                 out = ex()
@@ -180,7 +288,9 @@ def observe(D, base, ids, xs, mode, pre, R, X, T, bogus, flag, rng, forms):
                     if v is None:
                         continue
                     ret |= 1 << (k - 1)
-                    if v != (k if k in (D.get("idxret") or []) else ("v", k)):
+                    stubs = (D.get("nest") or {}).get("stubs") or {}
+                    want = ("v", stubs[str(k)]) if str(k) in stubs else (k if k in (D.get("idxret") or []) else ("v", k))
+                    if v != want:
                         bad |= 1 << (k - 1)
         except ValueError:
             err = 1
@@ -190,8 +300,8 @@ def observe(D, base, ids, xs, mode, pre, R, X, T, bogus, flag, rng, forms):
     finally:
         _verif.sink = None
         cfg.RUN_DEBUG_NODES = False
-    e = mask(int(i[1:]) for i in rec.entered if i in ids)
-    dup = mask(int(i[1:]) for i, c in rec.entered.items() if i in ids and c > 1)
+    e = mask(ids.index(i) + 1 for i in rec.entered if i in ids)
+    dup = mask(ids.index(i) + 1 for i, c in rec.entered.items() if i in ids and c > 1)
     if any(i not in ids for i in rec.entered):
         err = 2  # an argument holder executed: arguments are always supplied here
     observe.aliases = rec.aliases
@@ -225,7 +335,7 @@ def selections(D, rng, limit):
 def run_dag(D, rng, limit, forms=("id", "ref", "tag", "grp")):
     """All observations for one DAG description; returns the JSON record for SelCheck."""
     rec = {"n": D["n"], "deps": D["deps"], "kind": D["kind"], "const": D["const"], "tags": D.get("tags", {}),
-           "obs": [], "als": [], "built": True, "setuparg": D.get("setuparg", 0), "idxret": D.get("idxret") or [], "calltag": D.get("calltag") or [], "actdep": D.get("actdep") or [0, 0], "plaintag": bool(D.get("plaintag")),
+           "obs": [], "als": [], "built": True, "setuparg": D.get("setuparg", 0), "idxret": D.get("idxret") or [], "calltag": D.get("calltag") or [], "actdep": D.get("actdep") or [0, 0], "plaintag": bool(D.get("plaintag")), "nest": D.get("nest") or {},
            "tagseq": [D.get("tags", {}).get(str(k), []) for k in range(1, D["n"] + 1)]}
     try:
         base, ids, xs = build(D, res=D.get("res", "main"), mc=D.get("mc", 1))
